@@ -405,17 +405,15 @@ Proof.
   - intros s0 _. apply fresh_ok.
 Qed.
 
-Lemma KInv_handle_established k fd l r t s :
-  KInv k -> tcb_ok (cfg k) t -> KInv (handle_established k fd l r t s).
+Lemma tcb_on_conn_ok c t s : tcb_ok c t -> tcb_ok c (fst (tcb_on_conn (recv_cap c) t s)).
 Proof.
-  intros H Ht. unfold handle_established.
-  pose proof (tcb_on_seg_ok (cfg k) t s Ht) as H1.
-  destruct (tcb_on_seg _ t s) as [t' a]. cbn in *.
-  destruct a; [apply KInv_emit; [apply KInv_upd_tcb; assumption|apply mk_ack_ok]|apply KInv_upd_tcb; assumption].
+  intros H. unfold tcb_on_conn.
+  pose proof (tcb_on_seg_ok c t s H) as H1. destruct (tcb_on_seg (recv_cap c) t s) as [t' a]. cbn [fst] in H1.
+  destruct H as [Ha Hb].
+  destruct (t_state t); cbn [fst]; try exact H1; try (split; assumption).
+  - destruct (_ && _); cbn [fst]; split; assumption.
+  - destruct (_ && _); [|split; assumption]. destruct (negb _); cbn [fst]; split; assumption.
 Qed.
-
-Lemma cfg_handle_established k fd l r t s : cfg (handle_established k fd l r t s) = cfg k.
-Proof. unfold handle_established. destruct (tcb_on_seg _ t s) as [t' a]. destruct a; reflexivity. Qed.
 
 Lemma KInv_handle_on_connection k fd l r s :
   KInv k -> KInv (handle_on_connection k fd l r s) /\ cfg (handle_on_connection k fd l r s) = cfg k.
@@ -423,16 +421,15 @@ Proof.
   intros H. unfold handle_on_connection. destruct (f_rst s); [split; [apply KInv_abort_with, H|reflexivity]|].
   destruct (lookup k fd) as [so|] eqn:L; [|split; [assumption|reflexivity]].
   destruct (s_tcb so) as [t|] eqn:T; [|split; [assumption|reflexivity]].
-  pose proof (KInv_lookup _ _ _ H L) as Hs. unfold sock_ok in Hs. rewrite T in Hs. destruct Hs as [Hs1 Hs2].
-  destruct (t_state t);
-    try (split; [apply KInv_handle_established; [assumption|split; assumption]|apply cfg_handle_established]).
-  - destruct (_ && _); [|split; [assumption|reflexivity]]. split; [|reflexivity].
-    apply KInv_emit; [|apply mk_ack_ok]. apply KInv_upd_tcb; [assumption|]. split; cbn; assumption.
-  - destruct (_ && _); [|split; [assumption|reflexivity]].
-    destruct (negb _); [split; [assumption|reflexivity]|]. split.
-    + apply KInv_push_to_listener, KInv_upd_tcb; [assumption|]. split; cbn; assumption.
-    + unfold push_to_listener. destruct (find_listener _ _); reflexivity.
+  pose proof (KInv_lookup _ _ _ H L) as Hs. unfold sock_ok in Hs. rewrite T in Hs.
+  pose proof (tcb_on_conn_ok (cfg k) t s Hs) as H1.
+  destruct (tcb_on_conn (recv_cap (cfg k)) t s) as [t' o]. cbn [fst] in H1.
+  pose proof (KInv_upd_tcb k fd t' H H1) as H2.
+  destruct o.
   - split; [assumption|reflexivity].
+  - split; [apply KInv_emit; [assumption|apply mk_ack_ok]|reflexivity].
+  - split; [apply KInv_emit; [assumption|apply mk_ack_ok]|reflexivity].
+  - split; [apply KInv_push_to_listener, H2|]. unfold push_to_listener. destruct (find_listener _ _); reflexivity.
 Qed.
 
 Lemma KInv_tcp_deliver k src dst s : KInv k -> KInv (tcp_deliver k src dst s) /\ cfg (tcp_deliver k src dst s) = cfg k.
